@@ -1,5 +1,6 @@
 import FFS.Driver.Rlp
 import FFS.Driver.Secp
+import FFS.Driver.Tx
 open Lean FFS FFS.Driver
 
 def dispatch (op : String) (j : Json) : Json :=
@@ -13,6 +14,9 @@ def dispatch (op : String) (j : Json) : Json :=
   | "secp.compact" => opSecpCompact j
   | "secp.decodecompact" => opSecpDecodeCompact j
   | "keccak" => opKeccak j
+  | "tx.sign" => opTxSign j
+  | "tx.recover" => opTxRecover j
+  | "tx.decode1559" => opTxDecode1559 j
   | _ => Json.mkObj [("bad", "op")]
 
 partial def loop (hin : IO.FS.Stream) (hout : IO.FS.Stream) : IO Unit := do
